@@ -12,7 +12,8 @@ def run(ctx, model_ok):
     ctx.cov["evaluations"] = st["ops"]
     ctx.cov["distinct_nontrivial"] = st["distinct_states"]
     ctx.cov["setter_refusals"] = {k: st.get(k, 0) for k in ("setter_assignments", "rejected_setter_assignments", "rejected_setter_by_construction",
-                                                             "rejected_setter_on_populated_collection")}
+                                                             "rejected_setter_on_populated_collection",
+                                                             "bare_value_children_assignments", "rejected_collections_assignment_with_non_object")}
     ctx.cov["rule"] = ("seeded random histories over 3-8 objects (sources, sensors, collections) plus collections created by `+`: "
                        "add (1-3 args, override on/off), remove (recursive on/off, errors raise/ignore), parent=, children=, sources=/"
                        "sensors=/collections=, malformed arguments; ~45% of operations are rejected part-way or up front; "
